@@ -43,8 +43,19 @@ fn check<T: for<'b> minicbor::Decode<'b, ()> + minicbor::Encode<()> + std::fmt::
             Err(_) => {}
         }
     }
+    // C09: damaged versions of the message (every single-bit flip, every byte replaced by an indefinite / 8-byte-length marker) decode to a value or an
+    // error — never a panic
+    let prev = std::panic::take_hook(); std::panic::set_hook(Box::new(|_| {}));
+    let mut dmg = |m: &[u8], how: String| { DAMAGED.with(|d| d.set(d.get() + 1));
+        if std::panic::catch_unwind(std::panic::AssertUnwindSafe(|| { let _ = minicbor::decode::<T>(m); })).is_err() { println!("VIOLATED: {what} {v:?}: decoding PANICS on {} ({how} of {})", hex(m), hex(&bytes)); std::process::exit(1); } };
+    for pos in 0..bytes.len().min(400) {
+        for bit in 0..8 { let mut m = bytes.clone(); m[pos] ^= 1 << bit; dmg(&m, format!("bit {bit} of byte {pos} flipped")); }
+        for r in [0x1bu8, 0x5f, 0x9f, 0xbf, 0xff, 0x3b, 0xdb] { if bytes[pos] != r { let mut m = bytes.clone(); m[pos] = r; dmg(&m, format!("byte {pos} replaced by {r:#04x}")); } }
+    }
+    std::panic::set_hook(prev);
     *n += 1;
 }
+thread_local! { static DAMAGED: std::cell::Cell<u64> = std::cell::Cell::new(0); }
 
 fn main() {
     let nums: [u64; 9] = [0, 1, 23, 24, 255, 256, 65535, 65536, u64::MAX];
@@ -214,5 +225,5 @@ fn main() {
             for len in [0usize, 1, 2, 5] { check("network2 peersharing", &Message::SharePeers(addrs.iter().step_by(3).take(len).cloned().collect()), same, &mut n); }
         }
     }
-    println!("checked {n} messages: one well-formed item each, decode(encode(m)) == m");
+    println!("checked {n} messages: one well-formed item each, decode(encode(m)) == m; {} damaged versions decode without a panic", DAMAGED.with(|d| d.get()));
 }
